@@ -24,21 +24,25 @@ type ExtSpec struct {
 }
 
 var extTable = map[string]ExtSpec{
-	"fmt.Errorf":                            {Known: true, NonNil: true, NoPanic: true},
-	"errors.New":                            {Known: true, NonNil: true, NoPanic: true},
-	"fmt.Sprintf":                           {Known: true, Pure: true, NoPanic: true},
-	"fmt.Sprint":                            {Known: true, Pure: true, NoPanic: true},
-	"fmt.Printf":                            {Known: true, NoPanic: true, Effects: []string{"stdout"}},
-	"fmt.Println":                           {Known: true, NoPanic: true, Effects: []string{"stdout"}},
-	"fmt.Print":                             {Known: true, NoPanic: true, Effects: []string{"stdout"}},
-	"os.Getenv":                             {Known: true, NoPanic: true, Nondet: true, Effects: []string{"env"}},
-	"time.Now":                              {Known: true, NoPanic: true, Nondet: true, Effects: []string{"clock"}},
-	"time.LoadLocation":                     {Known: true, NoPanic: true, Nondet: true, Effects: []string{"tzdb"}},
-	"time.Unix":                             {Known: true, Pure: true, NoPanic: true},
-	"sort.Sort":                             {Known: true, HavocArgs: true},
-	"sort.Slice":                            {Known: true, HavocArgs: true},
-	"sort.Strings":                          {Known: true, HavocArgs: true, NoPanic: true},
-	"context.Background":                    {Known: true, Pure: true, NonNil: true, NoPanic: true},
+	"fmt.Errorf":         {Known: true, NonNil: true, NoPanic: true},
+	"errors.New":         {Known: true, NonNil: true, NoPanic: true},
+	"fmt.Sprintf":        {Known: true, Pure: true, NoPanic: true},
+	"fmt.Sprint":         {Known: true, Pure: true, NoPanic: true},
+	"fmt.Printf":         {Known: true, NoPanic: true, Effects: []string{"stdout"}},
+	"fmt.Println":        {Known: true, NoPanic: true, Effects: []string{"stdout"}},
+	"fmt.Print":          {Known: true, NoPanic: true, Effects: []string{"stdout"}},
+	"os.Getenv":          {Known: true, NoPanic: true, Nondet: true, Effects: []string{"env"}},
+	"time.Now":           {Known: true, NoPanic: true, Nondet: true, Effects: []string{"clock"}},
+	"time.LoadLocation":  {Known: true, NoPanic: true, Nondet: true, Effects: []string{"tzdb"}},
+	"time.Unix":          {Known: true, Pure: true, NoPanic: true},
+	"sort.Sort":          {Known: true, HavocArgs: true},
+	"sort.Slice":         {Known: true, HavocArgs: true},
+	"sort.Strings":       {Known: true, HavocArgs: true, NoPanic: true},
+	"context.Background": {Known: true, Pure: true, NonNil: true, NoPanic: true},
+	// derived contexts: new values, nothing existing is touched (a zero or negative duration is allowed)
+	"context.WithTimeout":                   {Known: true, Nondet: true, NonNil: true, NoPanic: true},
+	"context.WithCancel":                    {Known: true, Nondet: true, NonNil: true, NoPanic: true},
+	"context.WithDeadline":                  {Known: true, Nondet: true, NonNil: true, NoPanic: true},
 	"(*sync.Mutex).Lock":                    {Known: true, NoPanic: true},
 	"(*sync.Mutex).Unlock":                  {Known: true, NoPanic: true}, // pairing with Lock is checked structurally (C11)
 	"(*sync.RWMutex).Lock":                  {Known: true, NoPanic: true},
